@@ -30,13 +30,13 @@ theorem addBlobs_mem (cas : Val → Bool) (l : Outs) (ov : OutDef × Val) (h : o
     · exact ih _ h
 
 /-- what one step leaves alone -/
-theorem step_frame {P : Params κ} (hG : Good P) {cfg : Cfg} (hm : cfg.minimal = false) (defs : Defs) (fuel : Nat)
+theorem step_frameK {P : Params κ} {A : AdmSpec κ} (hG : GoodK P A) {cfg : Cfg} (hm : cfg.minimal = false) (defs : Defs) (fuel : Nat)
     (t0 : Target) (hw : t0.cmd.writes = t0.outs) (s : BState κ) :
     (∀ l, l ≠ t0.label → (buildTarget P cfg defs fuel t0 s).st l = s.st l) ∧
     (∀ p, p ∉ outPaths t0 → (buildTarget P cfg defs fuel t0 s).fs p = s.fs p) ∧
     (∀ v, s.cache.cas v = true → (buildTarget P cfg defs fuel t0 s).cache.cas v = true) ∧
     (∀ l, l ≠ t0.label → (buildTarget P cfg defs fuel t0 s).cache.taint l = s.cache.taint l) ∧
-    (∀ k, (∀ ohs, k ≠ P.K (keyState t0 s.fs ohs)) → (buildTarget P cfg defs fuel t0 s).cache.res k = s.cache.res k) := by
+    (∀ k, (∀ ohs, depOhs s.st t0.hdeps = some ohs → k ≠ P.K (keyState t0 s.fs ohs)) → (buildTarget P cfg defs fuel t0 s).cache.res k = s.cache.res k) := by
   have hcase := buildTarget_all P cfg defs fuel t0 s hm
   have hexec : ∀ (k : κ) (s2 : BState κ) (b : Bool), execTarget P cfg defs t0 k (s.cache.taint t0.label) s = (s2, b) →
       ∀ p, p ∉ outPaths t0 → s2.fs p = s.fs p := by
@@ -45,7 +45,7 @@ theorem step_frame {P : Params κ} (hG : Good P) {cfg : Cfg} (hm : cfg.minimal =
     rw [e] at this
     rcases this with h | ⟨hx, h⟩
     · simp only at h; rw [h]
-    · simp only at h; rw [h, fsAfter_eq_fsA]; exact fsA_off hG defs t0 s.fs hw p hp hx
+    · simp only at h; rw [h, fsAfter_eq_fsA]; exact fsA_offK hG defs t0 s.fs hw p hp hx
   cases hcase with
   | depFailed h e =>
     rw [e]; exact ⟨fun l hl => upd_other _ _ _ _ hl, fun _ _ => rfl, fun _ h => h, fun _ _ => rfl, fun _ _ => rfl⟩
@@ -67,12 +67,26 @@ theorem step_frame {P : Params κ} (hG : Good P) {cfg : Cfg} (hm : cfg.minimal =
     · rw [htaint]; split
       · exact upd_other _ _ _ _ hl
       · rfl
-    · rw [hres]; exact upd_other _ _ _ _ (hk ohs)
+    · rw [hres]; exact upd_other _ _ _ _ (hk ohs h2)
   | failed ohs s2 h h2 h3 e e2 =>
     obtain ⟨hc, hst, _⟩ := execTarget_false e
     rw [e2]
     refine ⟨fun l hl => by simp only [failT]; rw [upd_other _ _ _ _ hl, hst], fun p hp => by simp only [failT]; exact hexec _ _ _ e p hp,
       fun v hv => by simp only [failT]; rw [hc]; exact hv, fun l hl => by simp only [failT]; rw [hc], fun k hk => by simp only [failT]; rw [hc]⟩
+
+theorem step_frame {P : Params κ} (hG : Good P) {cfg : Cfg} (hm : cfg.minimal = false) (defs : Defs) (fuel : Nat)
+    (t0 : Target) (hw : t0.cmd.writes = t0.outs) (s : BState κ) :
+    (∀ l, l ≠ t0.label → (buildTarget P cfg defs fuel t0 s).st l = s.st l) ∧
+    (∀ p, p ∉ outPaths t0 → (buildTarget P cfg defs fuel t0 s).fs p = s.fs p) ∧
+    (∀ v, s.cache.cas v = true → (buildTarget P cfg defs fuel t0 s).cache.cas v = true) ∧
+    (∀ l, l ≠ t0.label → (buildTarget P cfg defs fuel t0 s).cache.taint l = s.cache.taint l) ∧
+    (∀ k, (∀ ohs, k ≠ P.K (keyState t0 s.fs ohs)) → (buildTarget P cfg defs fuel t0 s).cache.res k = s.cache.res k) := by
+  obtain ⟨h1, h2, h3, h4, h5⟩ := step_frameK (GoodK_of_Good hG) hm defs fuel t0 hw s
+  exact ⟨h1, h2, h3, h4, fun k hk => h5 k (fun ohs _ => hk ohs)⟩
+
+/-- the contents of all resolved inputs are admissible -/
+def InOk (A : AdmSpec κ) (defs : Defs) (order : List Lbl) (fs : FS) : Prop :=
+  ∀ l ∈ order, ∀ t, defs l = some t → ∀ p ∈ t.inputs, ∀ v, fs p = some v → A.val v
 
 theorem depOhs_congr {st st' : Lbl → Option (TStat κ)} (deps : List Lbl) (h : ∀ d ∈ deps, ohOf st d = ohOf st' d) :
     depOhs st deps = depOhs st' deps := by
@@ -102,10 +116,10 @@ structure Plain (P : Params κ) (cfg : Cfg) (defs : Defs) (order : List Lbl) : P
   gate : P.fx.gateChecks = true
   cached : ∀ l ∈ order, ∀ t, defs l = some t → t.noCache = false
 
-theorem settled_step {P : Params κ} (hG : Good P) {cfg : Cfg} {defs : Defs} {order : List Lbl} (hwf : WF defs order)
-    (hpl : Plain P cfg defs order) (fuel : Nat)
+theorem settled_stepK {P : Params κ} {A : AdmSpec κ} (hG : GoodK P A) {cfg : Cfg} {defs : Defs} {order : List Lbl} (hwf : WF defs order)
+    (hT : ∀ l ∈ order, ∀ t, defs l = some t → A.tgt t) (hpl : Plain P cfg defs order) (fuel : Nat)
     (pre : List Lbl) (l0 : Lbl) (suf : List Lbl) (ho : order = pre ++ l0 :: suf) (t0 : Target) (ht0 : defs l0 = some t0)
-    (s : BState κ) (hK : ∀ l ∈ pre, (∃ ts, s.st l = some ts ∧ ts.ok = true) → Settled P defs s l) :
+    (s : BState κ) (hin : InOk A defs order s.fs) (hK : ∀ l ∈ pre, (∃ ts, s.st l = some ts ∧ ts.ok = true) → Settled P defs s l) :
     ∀ l ∈ pre ++ [l0], (∃ ts, (buildTarget P cfg defs fuel t0 s).st l = some ts ∧ ts.ok = true) →
       Settled P defs (buildTarget P cfg defs fuel t0 s) l := by
   have hm := hpl.all
@@ -116,7 +130,7 @@ theorem settled_step {P : Params κ} (hG : Good P) {cfg : Cfg} {defs : Defs} {or
     have := (List.nodup_append.1 hnd).2.2 l0 h l0 (by simp); exact this rfl
   have hlab0 : t0.label = l0 := hwf.label l0 t0 ht0
   obtain ⟨hhd0, hwr0, hnod0⟩ := hwf.hdeps l0 hl0o t0 ht0
-  obtain ⟨hfst, hffs, hfcas, hftaint, hfres⟩ := step_frame hG hm defs fuel t0 hwr0 s
+  obtain ⟨hfst, hffs, hfcas, hftaint, hfres⟩ := step_frameK hG hm defs fuel t0 hwr0 s
   -- topological position of a processed label
   have deps_pre : ∀ l ∈ pre, ∀ t, defs l = some t → ∀ d ∈ t.hdeps, d ≠ l0 := by
     intro l hl t ht d hd e
@@ -154,10 +168,11 @@ theorem settled_step {P : Params κ} (hG : Good P) {cfg : Cfg} {defs : Defs} {or
     refine ⟨t, ts, ohs, r, ht, by rw [hst]; exact hts, hk, by rw [ohs_frame _ (deps_pre l hl t ht)]; exact hoh, ?_, hroh, hv,
       fun ov hov => hfcas _ (hb ov hov), by rw [hftaint l (by rw [hlab0]; exact hne)]; exact hta,
       by rw [fs_checks l (hpo l hl) t ht]; exact hch⟩
-    rw [hks, hfres _ (fun ohs' e => ?_)]
+    rw [hks, hfres _ (fun ohs' hohs' e => ?_)]
     · exact hres
-    · have := hG.inj _ _ e
-      have hl' : (keyState t s.fs ohs).label = (keyState t0 s.fs ohs').label := by rw [this]
+    · have hl' : (keyState t s.fs ohs).label = (keyState t0 s.fs ohs').label :=
+        (hG.inj _ _ (hG.admKs t s.fs ohs (hT l (hpo l hl) t ht) (hin l (hpo l hl) t ht) (depOhs_length hoh))
+          (hG.admKs t0 s.fs ohs' (hT l0 hl0o t0 ht0) (hin l0 hl0o t0 ht0) (depOhs_length hohs')) e).1
       simp only [keyState] at hl'
       rw [hlab, hlab0] at hl'; exact hne hl'
   · -- the target just processed
@@ -211,20 +226,44 @@ variable {κ : Type} [DecidableEq κ]
 
 def okAt (s : BState κ) (l : Lbl) : Prop := ∃ ts, s.st l = some ts ∧ ts.ok = true
 
-theorem settled_run_aux {P : Params κ} (hG : Good P) {cfg : Cfg} {defs : Defs} {order : List Lbl} (hwf : WF defs order)
-    (hpl : Plain P cfg defs order) (fuel : Nat) :
-    ∀ (rest pre : List Lbl) (s : BState κ), order = pre ++ rest → (∀ l ∈ pre, okAt s l → Settled P defs s l) →
+theorem inOk_step {P : Params κ} {A : AdmSpec κ} (hG : GoodK P A) {cfg : Cfg} (hm : cfg.minimal = false) {defs : Defs} {order : List Lbl}
+    (hwf : WF defs order) (fuel : Nat) (l0 : Lbl) (hl0 : l0 ∈ order) (t0 : Target) (ht0 : defs l0 = some t0) (s : BState κ)
+    (hin : InOk A defs order s.fs) : InOk A defs order (buildTarget P cfg defs fuel t0 s).fs := by
+  intro l hl t ht p hp v hv
+  rw [(step_frameK hG hm defs fuel t0 (hwf.hdeps l0 hl0 t0 ht0).2.1 s).2.1 p (hwf.inputsOff l hl t ht l0 hl0 t0 ht0 p hp)] at hv
+  exact hin l hl t ht p hp v hv
+
+theorem settled_run_auxK {P : Params κ} {A : AdmSpec κ} (hG : GoodK P A) {cfg : Cfg} {defs : Defs} {order : List Lbl} (hwf : WF defs order)
+    (hT : ∀ l ∈ order, ∀ t, defs l = some t → A.tgt t) (hpl : Plain P cfg defs order) (fuel : Nat) :
+    ∀ (rest pre : List Lbl) (s : BState κ), order = pre ++ rest → InOk A defs order s.fs →
+      (∀ l ∈ pre, okAt s l → Settled P defs s l) →
       ∀ l ∈ pre ++ rest, okAt (run P cfg defs fuel rest s) l → Settled P defs (run P cfg defs fuel rest s) l := by
   intro rest
   induction rest with
-  | nil => intro pre s _ hK l hl; simp only [List.append_nil] at hl; simpa [run] using hK l hl
+  | nil => intro pre s _ _ hK l hl; simp only [List.append_nil] at hl; simpa [run] using hK l hl
   | cons l0 rest ih =>
-    intro pre s ho hK
+    intro pre s ho hin hK
     obtain ⟨t0, ht0⟩ := hwf.defined l0 (by rw [ho]; simp)
-    have hstep := settled_step hG hwf hpl fuel pre l0 rest ho t0 ht0 s hK
-    have := ih (pre ++ [l0]) (buildTarget P cfg defs fuel t0 s) (by rw [ho]; simp) hstep
+    have hstep := settled_stepK hG hwf hT hpl fuel pre l0 rest ho t0 ht0 s hin hK
+    have := ih (pre ++ [l0]) (buildTarget P cfg defs fuel t0 s) (by rw [ho]; simp)
+      (inOk_step hG hpl.all hwf fuel l0 (by rw [ho]; simp) t0 ht0 s hin) hstep
     simp only [run, List.foldl_cons, stepTarget, ht0]
     simpa [run] using this
+
+theorem settled_step {P : Params κ} (hG : Good P) {cfg : Cfg} {defs : Defs} {order : List Lbl} (hwf : WF defs order)
+    (hpl : Plain P cfg defs order) (fuel : Nat)
+    (pre : List Lbl) (l0 : Lbl) (suf : List Lbl) (ho : order = pre ++ l0 :: suf) (t0 : Target) (ht0 : defs l0 = some t0)
+    (s : BState κ) (hK : ∀ l ∈ pre, (∃ ts, s.st l = some ts ∧ ts.ok = true) → Settled P defs s l) :
+    ∀ l ∈ pre ++ [l0], (∃ ts, (buildTarget P cfg defs fuel t0 s).st l = some ts ∧ ts.ok = true) →
+      Settled P defs (buildTarget P cfg defs fuel t0 s) l :=
+  settled_stepK (GoodK_of_Good hG) hwf (fun _ _ _ _ => trivial) hpl fuel pre l0 suf ho t0 ht0 s (fun _ _ _ _ _ _ _ _ => trivial) hK
+
+theorem settled_run_aux {P : Params κ} (hG : Good P) {cfg : Cfg} {defs : Defs} {order : List Lbl} (hwf : WF defs order)
+    (hpl : Plain P cfg defs order) (fuel : Nat) :
+    ∀ (rest pre : List Lbl) (s : BState κ), order = pre ++ rest → (∀ l ∈ pre, okAt s l → Settled P defs s l) →
+      ∀ l ∈ pre ++ rest, okAt (run P cfg defs fuel rest s) l → Settled P defs (run P cfg defs fuel rest s) l :=
+  fun rest pre s ho hK => settled_run_auxK (GoodK_of_Good hG) hwf (fun _ _ _ _ => trivial) hpl fuel rest pre s ho
+    (fun _ _ _ _ _ _ _ _ => trivial) hK
 
 theorem succeeded_iff (s : BState κ) (order : List Lbl) : succeeded s order = true ↔ ∀ l ∈ order, okAt s l := by
   simp only [succeeded, List.all_eq_true, okAt]
@@ -267,7 +306,7 @@ structure Second (defs : Defs) (order : List Lbl) (f s2 : BState κ) (done : Lis
   fsOff : ∀ p, (∀ l ∈ order, ∀ t, defs l = some t → p ∉ outPaths t) → s2.fs p = f.fs p
   st : ∀ l ∈ done, okAt s2 l ∧ ohOf s2.st l = ohOf f.st l
 
-theorem second_step {P : Params κ} (hG : Good P) {cfg : Cfg} {defs : Defs} {order : List Lbl} (hwf : WF defs order)
+theorem second_stepK {P : Params κ} {cfg : Cfg} {defs : Defs} {order : List Lbl} (hwf : WF defs order)
     (hpl : Plain P cfg defs order) (fuel : Nat) (f : BState κ) (hf : ∀ l ∈ order, Settled P defs f l)
     (pre : List Lbl) (l0 : Lbl) (suf : List Lbl) (ho : order = pre ++ l0 :: suf) (t0 : Target) (ht0 : defs l0 = some t0)
     (s2 : BState κ) (hJ : Second defs order f s2 pre) :
@@ -307,7 +346,7 @@ theorem second_step {P : Params κ} (hG : Good P) {cfg : Cfg} {defs : Defs} {ord
       simp only [okAt, ohOf, ← hlab0, upd_same, htsf]
       exact ⟨⟨_, rfl, rfl⟩, by rw [show f.st t0.label = some tsf from by rw [hlab0]; exact htsf]; exact hroh.symm⟩
 
-theorem second_run_aux {P : Params κ} (hG : Good P) {cfg : Cfg} {defs : Defs} {order : List Lbl} (hwf : WF defs order)
+theorem second_run_auxK {P : Params κ} {cfg : Cfg} {defs : Defs} {order : List Lbl} (hwf : WF defs order)
     (hpl : Plain P cfg defs order) (fuel : Nat) (f : BState κ) (hf : ∀ l ∈ order, Settled P defs f l) :
     ∀ (rest pre : List Lbl) (s2 : BState κ), order = pre ++ rest → Second defs order f s2 pre →
       Second defs order f (run P cfg defs fuel rest s2) (pre ++ rest) := by
@@ -317,9 +356,15 @@ theorem second_run_aux {P : Params κ} (hG : Good P) {cfg : Cfg} {defs : Defs} {
   | cons l0 rest ih =>
     intro pre s2 ho hJ
     obtain ⟨t0, ht0⟩ := hwf.defined l0 (by rw [ho]; simp)
-    have hstep := second_step hG hwf hpl fuel f hf pre l0 rest ho t0 ht0 s2 hJ
+    have hstep := second_stepK hwf hpl fuel f hf pre l0 rest ho t0 ht0 s2 hJ
     have := ih (pre ++ [l0]) (buildTarget P cfg defs fuel t0 s2) (by rw [ho]; simp) hstep
     simp only [run, List.foldl_cons, stepTarget, ht0]
     simpa [run] using this
+
+theorem second_run_aux {P : Params κ} (hG : Good P) {cfg : Cfg} {defs : Defs} {order : List Lbl} (hwf : WF defs order)
+    (hpl : Plain P cfg defs order) (fuel : Nat) (f : BState κ) (hf : ∀ l ∈ order, Settled P defs f l) :
+    ∀ (rest pre : List Lbl) (s2 : BState κ), order = pre ++ rest → Second defs order f s2 pre →
+      Second defs order f (run P cfg defs fuel rest s2) (pre ++ rest) :=
+  second_run_auxK hwf hpl fuel f hf
 
 end Grog.Build
